@@ -58,10 +58,14 @@ type State struct {
 	heaps  map[string]Term // by element sort
 	ctr    Term            // Int: allocation counter
 	ghosts map[string]Term
+	closedSeen map[string]bool
 }
 
 func (s *State) clone() *State {
-	n := &State{pc: s.pc, ctr: s.ctr, cells: make(map[cellKey]Val, len(s.cells)), heaps: make(map[string]Term, len(s.heaps)), ghosts: make(map[string]Term, len(s.ghosts))}
+	n := &State{pc: s.pc, ctr: s.ctr, cells: make(map[cellKey]Val, len(s.cells)), heaps: make(map[string]Term, len(s.heaps)), ghosts: make(map[string]Term, len(s.ghosts)), closedSeen: make(map[string]bool, len(s.closedSeen))}
+	for k := range s.closedSeen {
+		n.closedSeen[k] = true
+	}
 	for k, v := range s.cells {
 		n.cells[k] = v
 	}
@@ -109,6 +113,12 @@ type Gen struct {
 	quantified bool
 	specDepth  int
 	absCache   map[string]Term
+	hasHeavy   bool
+	callChain  string
+	stores     map[string]storeInfo
+	merges     map[string]mergeInfo
+	selMemo    map[string]Term
+	copies     map[string]copyInfo
 	sliceMu    sync.Mutex
 	ownerIdx   map[string][]int
 	lineToks   [][]string
@@ -142,6 +152,7 @@ func (g *Gen) define(prefix string, t Term) Term {
 	name := fmt.Sprintf("%s_%d", prefix, g.nfresh)
 	g.lines = append(g.lines, Line{Text: fmt.Sprintf("(define-fun %s () %s %s)", name, t.Sort, t.S), Owners: []string{name}})
 	defTable[name] = t.S
+	g.recordAlias(name, t)
 	return T(t.Sort, name)
 }
 
@@ -162,6 +173,14 @@ func (g *Gen) assertLine(t Term, owners ...Term) {
 type Line struct {
 	Text   string
 	Owners []string // empty: always included
+	Heavy  bool     // unfolded library definition: may be omitted for a proof attempt
+}
+
+// assertHeavy adds a definitional constraint that abstract proof attempts may omit.
+func (g *Gen) assertHeavy(t Term, owners ...Term) {
+	g.assertLine(t, owners...)
+	g.lines[len(g.lines)-1].Heavy = true
+	g.hasHeavy = true
 }
 
 func (g *Gen) declareFun(name string, args []string, res string) {
@@ -185,7 +204,7 @@ func (g *Gen) oblige(st *State, fn, kind, label string, goal Term, pos token.Pos
 	if label != "" {
 		name += "." + label
 	}
-	o := &Obligation{Name: name, Func: fn, Kind: kind, PC: st.pc, Goal: goal, NLines: len(g.lines), Pos: g.eng.pos(pos)}
+	o := &Obligation{Name: name, Func: fn, Kind: kind, PC: st.pc, Goal: goal, NLines: len(g.lines), Pos: g.eng.pos(pos) + g.callChain}
 	g.obls = append(g.obls, o)
 	return o
 }
@@ -270,7 +289,11 @@ func isInteger(t types.Type) bool {
 func (g *Gen) structSort(t types.Type, st *types.Struct) *structInfo {
 	name := ""
 	if nt, ok := t.(*types.Named); ok {
-		name = "S_" + mangle(nt.Obj().Pkg().Name()+"."+nt.Obj().Name())
+		pkgPart := ""
+		if nt.Obj().Pkg() != nil {
+			pkgPart = strings.TrimPrefix(nt.Obj().Pkg().Path(), modPath+"/")
+		}
+		name = "S_" + mangle(pkgPart+"."+nt.Obj().Name())
 		if nt.TypeArgs() != nil && nt.TypeArgs().Len() > 0 {
 			name += mangle(types.TypeString(nt, nil))
 		}
@@ -406,7 +429,7 @@ func (g *Gen) load(st *State, loc Term, t types.Type) Term {
 		return g.fresh("arrval", s)
 	}
 	s := g.sortOf(t)
-	v := sel(g.heap(st, s), loc)
+	v := g.heapSelect(g.heap(st, s), loc)
 	return v
 }
 
@@ -446,7 +469,7 @@ func (g *Gen) store(st *State, loc Term, t types.Type, v Term) {
 		return
 	}
 	s := g.sortOf(t)
-	st.heaps[s] = sto(g.heap(st, s), loc, v)
+	st.heaps[s] = g.heapStore(g.heap(st, s), loc, v)
 	if len(st.heaps[s].S) > 400 {
 		st.heaps[s] = g.define("H", st.heaps[s])
 	}
@@ -513,6 +536,17 @@ func (g *Gen) newObject(st *State, what string) Term {
 // closed asserts the closed-heap assumption for a value of type t obtained from
 // outside (parameters, loads, call results): its locations were allocated before now.
 func (g *Gen) closed(st *State, v Term, t types.Type) {
+	if st.closedSeen == nil {
+		st.closedSeen = map[string]bool{}
+	}
+	if st.closedSeen[v.S] {
+		return
+	}
+	st.closedSeen[v.S] = true
+	g.closed0(st, v, t)
+}
+
+func (g *Gen) closed0(st *State, v Term, t types.Type) {
 	switch u := t.Underlying().(type) {
 	case *types.Pointer, *types.Map, *types.Chan:
 		g.assume(st, app(SBool, "<=", app("Int", "root", v), st.ctr))
